@@ -450,6 +450,11 @@ func (w *world) runHistory(h history) bool {
 			} else if ks.everEmpty {
 				input = "key-once-held-empty-payload"
 			}
+			if sFound && len(sData) == 0 {
+				// the blob the source serves right now is zero-length, whatever the history says
+				// (a delete of a zero-length blob is a no-op on the source: listed under C01)
+				input = "empty-payload"
+			}
 			// how the key's changes since the previous backup of this directory lie
 			// relative to the last source compaction in that interval
 			lastC := -1
